@@ -77,7 +77,10 @@ ROWS = [
      "index down", None),
     (r"^lang::lex::BasicLexer::lex/call:Index::index<str>#\d$", "reasoned",
      "line_str_pos only advances over ASCII digits / blanks / tabs (one byte each) starting at "
-     "0 and is re-validated by str::get each iteration: always a char boundary <= len", None),
+     "0 and is re-validated by str::get each iteration: always a char boundary <= len",
+     {"ascii_only_fns": ["lang::lex::is_basic_whitespace", "lang::lex::is_basic_digit"],
+      "loop_calls": ["core::str::<impl str>::get", "core::str::<impl str>::chars",
+                     "<std::str::Chars<'a> as std::iter::Iterator>::next"]}),
     (r"^lang::line::Line::renum/call:String::replace_range#1$", "provenance",
      "both range ends are byte offsets obtained from char_indices().nth() on the same string "
      "(or its len()), start <= end because the character column is ordered",
